@@ -34,7 +34,7 @@ OP_ALIAS = {'abs': 'fabs', 'round_exact': 'cast'}
 BUILTIN_LOWERING = {
     'len': ('Len', '__fpy_len'), 'any': ('AnyOf', '__fpy_any'), 'all': ('AllOf', '__fpy_all'),
     'max': ('Max', '__fpy_max'), 'min': ('Min', '__fpy_min'), 'fmax': ('Max', '__fpy_max'), 'fmin': ('Min', '__fpy_min'),
-    'zip': ('Zip', 'zip'), 'enumerate': ('Enumerate', '_eval_enumerate'), 'sum': ('Sum', '_eval_sum'),
+    'zip': ('Zip', '__fpy_zip'), 'enumerate': ('Enumerate', '_eval_enumerate'), 'sum': ('Sum', '_eval_sum'),
 }
 PY_BINOP = {'Add': ('Add', 'add'), 'Sub': ('Sub', 'sub'), 'Mult': ('Mul', 'mul'), 'Div': ('Div', 'div'),
             'Mod': ('Mod', 'mod'), 'Pow': ('Pow', 'pow')}
@@ -43,7 +43,7 @@ NAMESPACE = {
     '__fpy_call': '_eval_call', '__fpy_fraction': 'Fraction', '__fpy_negzero': '_neg_zero', '__fpy_index': '_cvt_index',
     '__fpy_list_set': '_eval_list_set', '__fpy_list_slice': '_eval_list_slice', '__fpy_range': '_eval_range',
     '__fpy_min': '_eval_min', '__fpy_max': '_eval_max', '__fpy_len': '_eval_len', '__fpy_any': '_eval_any',
-    '__fpy_all': '_eval_all', '__fpy_eq': '_eval_eq', '__fpy_attribute': '_eval_attribute', '__fpy_ordered': '_eval_ordered',
+    '__fpy_all': '_eval_all', '__fpy_zip': 'zip', '__fpy_list': 'list', '__fpy_eq': '_eval_eq', '__fpy_attribute': '_eval_attribute', '__fpy_ordered': '_eval_ordered',
 }
 
 
@@ -578,6 +578,51 @@ def t4_min_max_ties(ctx: Ctx):
         raise ShapeError(f'only {n} operand tuples evaluated')
 
 
+def f4_runtime_names(ctx: Ctx):
+    """The compiled Python function holds the program's variables as its locals.  Whatever else it names -- the helpers,
+    the context, temporaries -- must be spelled so that no program variable can be the same name: Python makes a name
+    assigned anywhere in a function a local of it, so a program variable called `list` turns the compiler's own
+    `list(zip(...))` into a read of an unassigned local.  Every `pyast.Name(id=...)` the compiler builds is a program
+    identifier (`str(<node>.name)`), a constant or generated name beginning `__fpy_`, the two context names, or `_`."""
+    comp = ctx.repo.cls(BYTE, 'BytecodeCompiler')
+    n = 0
+    for m in [s for s in comp.body if isinstance(s, ast.FunctionDef)]:
+        defs: dict[str, list[ast.AST]] = {}
+        for s in ast.walk(m):
+            if isinstance(s, ast.Assign) and len(s.targets) == 1 and isinstance(s.targets[0], ast.Name):
+                defs.setdefault(s.targets[0].id, []).append(s.value)
+
+        def own(v: ast.AST, depth: int = 0) -> bool:
+            if isinstance(v, ast.Constant):
+                return isinstance(v.value, str) and (v.value.startswith('__fpy_') or v.value == '_')
+            if isinstance(v, ast.IfExp):
+                return own(v.body, depth) and own(v.orelse, depth)
+            if isinstance(v, ast.JoinedStr):
+                return bool(v.values) and isinstance(v.values[0], ast.Constant) and str(v.values[0].value).startswith('__fpy_')
+            if isinstance(v, ast.Name):
+                if v.id in ('CTX_NAME', 'REAL_NAME'):
+                    return True
+                return depth < 3 and v.id in defs and all(own(x, depth + 1) for x in defs[v.id])
+            if isinstance(v, ast.Call) and call_name(v) == 'str' and len(v.args) == 1:
+                a = v.args[0]
+                if isinstance(a, ast.Call) and (call_name(a) or '').endswith('gensym.fresh'):
+                    return bool(a.args) and own(a.args[0], depth)
+                # a program identifier: the name of a node of the program (`e.name`, `stmt.var`, `target`, a loop variable over them)
+                return isinstance(a, (ast.Attribute, ast.Name))
+            return False
+        for k in calls_in(m):
+            if call_name(k) == 'pyast.Name':
+                v = kwarg(k, 'id')
+                if v is None:
+                    continue
+                n += 1
+                ctx.check(own(v), BYTE, k, f'BytecodeCompiler.{m.name}', f'`{norm(k)[:60]}` names a program variable or something of the runtime\'s own',
+                          f'id `{norm(v)}` is a bare Python name: a program variable spelled the same becomes a local of the compiled function and the read fails -- '
+                          '`ps = zip(xs, ys); list = 1.0` raises UnboundLocalError')
+    if n < 35:
+        raise ShapeError(f'only {n} emitted names found')
+
+
 def t5_negated_literals(ctx: Ctx):
     """`-e` is the arithmetic node Neg(e), rounded under the active context like every other operation; a literal is the
     exact real it spells and is never rounded.  The parser may fold the sign into the literal only where that cannot be
@@ -653,7 +698,7 @@ def f3_strict_helpers(ctx: Ctx):
         good = any(isinstance(kwarg(k, 'arg'), ast.Constant) and kwarg(k, 'arg').value == 'strict'  # type: ignore
                    and call_name(kwarg(k, 'value')) == 'pyast.Constant' and isinstance(kwarg(kwarg(k, 'value'), 'value'), ast.Constant)  # type: ignore
                    and kwarg(kwarg(k, 'value'), 'value').value is True for k in kws)  # type: ignore
-        good = good and 'list' in names_called_in_arm(z)
+        good = good and '__fpy_list' in names_called_in_arm(z)
     ctx.check(good, BYTE, z.pattern if z else None, 'BytecodeCompiler._visit_naryop', 'zip(..., strict=True) materialised with list(...)',
               'unequal lengths would be truncated silently, or the zip left lazy')
     fn = ctx.fn(BYTE, 'BytecodeCompiler._visit_compare')
@@ -780,6 +825,7 @@ RULES = [
     Rule('C04.T2', 'callee context: declared, else passed, else IEEE double', t2_func_ctx, 7, 'T'),
     Rule('C04.T3', 'boundary table: a Python bool/int/float/RealFloat/Fraction argument enters as exactly the number it is', scalar_arms, 8, 'T'),
     Rule('C04.T4', 'min / max: NaN first, value by order, a tie of zeros by sign (-0 for min, +0 for max) whatever the operand order and kind', t4_min_max_ties, 2, 'T'),
+    Rule('C04.F4', 'compiled code names only program variables and names of the runtime\'s own (`__fpy_...`): no bare Python builtin a variable could capture', f4_runtime_names, 35, 'F'),
     Rule('C04.T6', 'arithmetic under `with fp.REAL` follows the IEEE rules for NaN, infinities and zeros (= C02.T2, the exact engine)', lambda ctx: __import__('sa.props.engine_rules', fromlist=['t2_real_specials']).t2_real_specials(ctx), 48, 'T'),
     Rule('C04.T5', 'a negated operand is the operation Neg; the sign folds into the literal only for a zero and an integer', t5_negated_literals, 12, 'T'),
     Rule('C04.F2', 'FPy-to-FPy calls share arguments; nothing rounds on entry; boundary conversion only when convert', f2_call_boundary, 6, 'F'),
@@ -789,6 +835,8 @@ RULES = [
 from ..selftest import Mutant  # noqa: E402
 
 MUTANTS = [
+    Mutant('zip-emitted-by-its-bare-name', BYTE, "                func = pyast.Name(id='__fpy_list', ctx=pyast.Load(), **attrs)", "                func = pyast.Name(id='list', ctx=pyast.Load(), **attrs)", 'C04.F4',
+           'finding F106 before its repair: a program variable named list breaks every zip in the function'),
     Mutant('exact-sum-hands-back-the-other-operand-of-a-zero', 'fpy2/number/engine/real.py', "        else:\n            # both are finite\n            match x, y:\n                case Float(), Float():\n                    r = x.as_real() + y.as_real()",
            "        elif _is_zero(y):\n            return x\n        elif _is_zero(x):\n            return y\n        else:\n            # both are finite\n            match x, y:\n                case Float(), Float():\n                    r = x.as_real() + y.as_real()", 'C04.T6',
            'seeded change C04e: with fp.REAL: y = x + 0 keeps the -0 of x, and 1 / y is -inf'),
